@@ -37,6 +37,7 @@ const (
 	runtimePrefix = "runtime."
 
 	nonFatalTraceback = "    <test case failed without stopping>\n"
+	emptyFailMsg      = "(no failure message)"
 )
 
 var (
@@ -817,6 +818,9 @@ func (t *T) fail(now bool, msg string) {
 	t.mu.Lock()
 	defer t.mu.Unlock()
 
+	if msg == "" {
+		msg = emptyFailMsg // t.failed == "" means "not failed"
+	}
 	t.failed = stopTest(msg)
 	if now {
 		panic(t.failed)
